@@ -91,6 +91,7 @@ func (x *wireExtractor) undecodedReads(body *ast.BlockStmt) map[*ast.CallExpr]bo
 	var allReads []*ast.CallExpr
 	decoded := map[types.Object]bool{}
 	handedOn := map[*ast.CallExpr]bool{}
+	returnedVars := map[types.Object]bool{}
 	ast.Inspect(body, func(n ast.Node) bool {
 		switch n := n.(type) {
 		case *ast.FuncLit:
@@ -100,6 +101,14 @@ func (x *wireExtractor) undecodedReads(body *ast.BlockStmt) map[*ast.CallExpr]bo
 			if len(n.Results) == 1 {
 				if call, ok := ast.Unparen(n.Results[0]).(*ast.CallExpr); ok {
 					handedOn[call] = true
+				}
+			}
+			// `b, err := data.Read(a, b); ...; return b, nil`: the same, through a variable
+			if len(n.Results) == 2 {
+				if id, ok := ast.Unparen(n.Results[0]).(*ast.Ident); ok {
+					if obj := x.info.ObjectOf(id); obj != nil && isByteSlice(obj.Type()) {
+						returnedVars[obj] = true
+					}
 				}
 			}
 		case *ast.AssignStmt:
@@ -141,6 +150,9 @@ func (x *wireExtractor) undecodedReads(body *ast.BlockStmt) map[*ast.CallExpr]bo
 		if handedOn[call] {
 			continue
 		}
+		if obj, ok := readVar[call]; ok && obj != nil && returnedVars[obj] && !decoded[obj] {
+			continue // handed to the caller
+		}
 		if obj, ok := readVar[call]; !ok || obj == nil || !decoded[obj] {
 			out[call] = true
 		}
@@ -165,6 +177,9 @@ func (x *wireExtractor) forwardsRead(call *ast.CallExpr) bool {
 		return false
 	}
 	found := false
+	// also: b, err := data.Read(...); ...; return b, nil  (a cursor that moves its position in between)
+	var readVars []types.Object
+	nReads := 0
 	ast.Inspect(decl.Body, func(n ast.Node) bool {
 		if ret, ok := n.(*ast.ReturnStmt); ok && len(ret.Results) == 1 {
 			if c2, ok := ast.Unparen(ret.Results[0]).(*ast.CallExpr); ok {
@@ -173,8 +188,48 @@ func (x *wireExtractor) forwardsRead(call *ast.CallExpr) bool {
 				}
 			}
 		}
+		if as, ok := n.(*ast.AssignStmt); ok && len(as.Rhs) == 1 && len(as.Lhs) == 2 {
+			if c2, ok := ast.Unparen(as.Rhs[0]).(*ast.CallExpr); ok {
+				if _, full := x.calleeOf(c2); strings.HasSuffix(full, "bluge_segment_api.*Data.Read") {
+					nReads++
+					if id, ok := as.Lhs[0].(*ast.Ident); ok {
+						if obj := x.info.Defs[id]; obj != nil {
+							readVars = append(readVars, obj)
+						} else if obj := x.info.Uses[id]; obj != nil {
+							readVars = append(readVars, obj)
+						}
+					}
+				}
+			}
+		}
 		return true
 	})
+	if !found && nReads == 1 && len(readVars) == 1 {
+		returned, other := false, false
+		ast.Inspect(decl.Body, func(n ast.Node) bool {
+			switch y := n.(type) {
+			case *ast.ReturnStmt:
+				if len(y.Results) == 2 {
+					if id, ok := ast.Unparen(y.Results[0]).(*ast.Ident); ok && x.info.Uses[id] == readVars[0] {
+						returned = true
+					}
+				}
+			case *ast.CallExpr:
+				// the bytes are only handed back: not decoded, sliced or passed on here
+				for _, a := range y.Args {
+					if id, ok := ast.Unparen(a).(*ast.Ident); ok && x.info.Uses[id] == readVars[0] {
+						other = true
+					}
+				}
+			case *ast.SliceExpr:
+				if id, ok := ast.Unparen(y.X).(*ast.Ident); ok && x.info.Uses[id] == readVars[0] {
+					other = true
+				}
+			}
+			return true
+		})
+		found = returned && !other
+	}
 	return found
 }
 
@@ -738,7 +793,14 @@ func (x *wireExtractor) expr(e ast.Expr) []wireItem {
 			return false
 		case *ast.CallExpr:
 			// arguments first (evaluation order), then the call itself
+			bindsBuffers := false
+			if cf, _ := x.calleeOf(n); cf != nil && cf.Pkg() == x.c.Root.Types && x.hasBufferBuilderArg(n) && !wireBoundary[declName(cf)] {
+				bindsBuffers = true // the buffer a helper builds is emitted where the callee writes it
+			}
 			for _, a := range n.Args {
+				if bindsBuffers && x.bufferBuilderCall(a) != nil {
+					continue
+				}
 				out = append(out, x.expr(a)...)
 			}
 			if se, ok := ast.Unparen(n.Fun).(*ast.SelectorExpr); ok {
@@ -835,6 +897,10 @@ func (x *wireExtractor) call(call *ast.CallExpr) []wireItem {
 			if x.isCarrier(arg) {
 				return nil
 			}
+			if bf := x.bufferBuilderCall(arg); bf != nil {
+				// the bytes were encoded by a helper that returns its buffer: what it put into it
+				return x.sigOf(bf)
+			}
 			return mk("RAW", x.carryOf(arg))
 		case full == rootPkgPath+".writeUvarints":
 			var out []wireItem
@@ -895,7 +961,7 @@ func (x *wireExtractor) call(call *ast.CallExpr) []wireItem {
 		var sub []wireItem
 		if sig := fn.Type().(*types.Signature); sig.Variadic() && !call.Ellipsis.IsValid() && len(call.Args) >= sig.Params().Len()-1 && fn.Name() != "writeUvarints" {
 			sub = x.sigWithVariadic(fn, call.Args[sig.Params().Len()-1:])
-		} else if x.hasOpaqueParam(sig) && len(call.Args) == sig.Params().Len() {
+		} else if (x.hasOpaqueParam(sig) || x.hasBufferBuilderArg(call)) && len(call.Args) == sig.Params().Len() {
 			sub = x.sigWithArgs(fn, call.Args)
 		} else {
 			sub = x.sigOf(fn)
@@ -958,6 +1024,15 @@ func carrierName(buf ast.Expr) string {
 func (x *wireExtractor) dropUnwritten(items []wireItem, body *ast.BlockStmt) []wireItem {
 	handed := map[string]bool{}
 	ast.Inspect(body, func(n ast.Node) bool {
+		if ret, isRet := n.(*ast.ReturnStmt); isRet {
+			// the buffer is what the function returns: its caller writes it
+			for _, res := range ret.Results {
+				if t := x.info.TypeOf(res); t != nil && isByteSlice(t) {
+					handed[carrierName(res)] = true
+				}
+			}
+			return true
+		}
 		call, ok := n.(*ast.CallExpr)
 		if !ok {
 			return true
@@ -1205,9 +1280,23 @@ func (x *wireExtractor) sigWithArgs(obj *types.Func, args []ast.Expr) []wireItem
 		x.subst = map[types.Object]ast.Expr{}
 	}
 	var bound []types.Object
+	anyBuilder := false
+	for _, a := range args {
+		if x.bufferBuilderCall(a) != nil {
+			anyBuilder = true
+		}
+	}
 	for i := 0; i < sig.Params().Len(); i++ {
 		p := sig.Params().At(i)
 		if it, ok := p.Type().Underlying().(*types.Interface); ok && it.NumMethods() == 0 {
+			if _, taken := x.subst[p]; !taken {
+				x.subst[p] = x.unsubst(args[i])
+				bound = append(bound, p)
+			}
+		}
+		// a []byte parameter handed the result of an in-package function that builds a buffer
+		// (and, then, the other []byte parameters as well: what is written keeps its name)
+		if isByteSlice(p.Type()) && i < len(args) && (x.bufferBuilderCall(args[i]) != nil || anyBuilder) {
 			if _, taken := x.subst[p]; !taken {
 				x.subst[p] = x.unsubst(args[i])
 				bound = append(bound, p)
@@ -1319,4 +1408,36 @@ func (x *wireExtractor) singleDef(id *ast.Ident) ast.Expr {
 		return nil
 	}
 	return def
+}
+
+// bufferBuilderCall: e is a call of an in-package function (no writer among its
+// parameters) whose only result is a []byte: the function, else nil.
+func (x *wireExtractor) bufferBuilderCall(e ast.Expr) *types.Func {
+	call, ok := ast.Unparen(e).(*ast.CallExpr)
+	if !ok {
+		return nil
+	}
+	fn, _ := x.calleeOf(call)
+	if fn == nil || fn.Pkg() != x.c.Root.Types || x.c.declOf[fn] == nil {
+		return nil
+	}
+	sig := fn.Type().(*types.Signature)
+	if sig.Results().Len() != 1 || !isByteSlice(sig.Results().At(0).Type()) {
+		return nil
+	}
+	for i := 0; i < sig.Params().Len(); i++ {
+		if isWriterLike(sig.Params().At(i).Type()) {
+			return nil
+		}
+	}
+	return fn
+}
+
+func (x *wireExtractor) hasBufferBuilderArg(call *ast.CallExpr) bool {
+	for _, a := range call.Args {
+		if x.bufferBuilderCall(a) != nil {
+			return true
+		}
+	}
+	return false
 }
